@@ -50,8 +50,9 @@
                   input drops the message.
      FixReFin     after the stream Fin the loop goes on: a second Fin under the next sequence number
                   hands the same Proposal out again.  Repaired = the loop ends after the hand-over.
-     SeqWindow    0 = any sequence number is buffered (the out-of-order map is unbounded); w > 0 =
-                  parts at or beyond next + w are dropped.
+     SeqWindow    0 = any sequence number is buffered, also one already processed (the out-of-order
+                  map is unbounded and keeps stale duplicates); w > 0 = only next < n < next + w is
+                  buffered.
    Mut names a mutant (a mechanism switched off) for the expected-violation runs. *)
 EXTENDS Integers, Sequences, FiniteSets, TLC
 
@@ -66,6 +67,7 @@ CONSTANTS
   MaxExtra,       \* deliveries beyond the first, all messages together
   MaxGot,         \* the driver's inbox keeps this many entries per stream (bounds the state)
   FixNilState, FixBlock, FixReFin, SeqWindow,
+  BufBound,       \* the bound BufferBounded states
   Mut
 
 VARIABLES
@@ -121,7 +123,7 @@ Good(sc) == RefRun(sc, 0, {Q0})
 (* the honest dispatcher's output: sequence numbers 0..n once each in order, and it means something *)
 IsHonest(sc) == /\ \A j \in DOMAIN sc : sc[j].seq = j - 1
                 /\ Good(sc) # {}
-                /\ sc[Len(sc)].part = FinPart
+                /\ sc[Len(sc)].part = FinPart /\ \A j \in 1..(Len(sc) - 1) : sc[j].part # FinPart
                 /\ Len(sc) >= 2 /\ sc[2].part.k = "Info"
 HeightOf(sc) == sc[1].part.h      \* of an honest script
 
@@ -187,7 +189,7 @@ Drive(x, m, h) ==
 
 Process(x, m, h) ==
   IF m.seq # x.next /\ Mut # "noorder"
-  THEN IF SeqWindow > 0 /\ m.seq >= x.next + SeqWindow
+  THEN IF SeqWindow > 0 /\ (m.seq >= x.next + SeqWindow \/ m.seq < x.next)
        THEN [x |-> x, err |-> FALSE, give |-> NoProp]
        ELSE [x |-> [x EXCEPT !.buf = {e \in @ : e.seq # m.seq} \cup {m}], err |-> FALSE, give |-> NoProp]
   ELSE Drive([x EXCEPT !.next = @ + 1], m, h)
@@ -341,7 +343,7 @@ FutureWaits == \A s \in Streams : st[s].reg > cur => st[s].run = "no"
 DemuxNeverStops == dmx # "crashed" /\ (dmx = "blocked" => st[blk.s].run \in {"running", "sending"})
 
 (* memory: buffered out-of-order parts per stream; stream objects that no commit will ever remove *)
-BufferBounded == \A s \in Streams : Cardinality(st[s].buf) <= SeqWindow
+BufferBounded == \A s \in Streams : Cardinality(st[s].buf) <= BufBound
 NoLeak == \A s \in Streams : st[s].ex => (st[s].reg >= cur \/ ~st[s].started)
 NoLeakStrict == \A s \in Streams : st[s].ex => st[s].reg >= cur
 
